@@ -50,3 +50,28 @@ def declare(check, na):
     check('C23', 'exploration', 'real AsyncFS ranged-read paths over protocol fakes (RFC 9110 range server for GCS, boto3 and azure-blob client fakes) and real local files',
           'exhaustive (size <= 9/12, start, length) per backend, direct and routed, plus seeded larger objects, compared with data[start:start+length]; readexactly past EOF must signal UnexpectedEOFError',
           'trusted: vf/sim/fsfakes.py implements the published GCS / S3 / azure-storage-blob range semantics (the real clouds are not contacted); UnexpectedEOFError is accepted for an empty range at start >= size')
+
+    check('C27', 'fault_enumeration', 'fault catalogue x injection sites on the real gear.Database over the aiomysql shim, twin-run table comparison',
+          'every (MySQL error, site, before/after effect) single fault and sampled / all pairs are injected into generated transactions run through the real retry decorator and Transaction code; retryable faults must end with the fault-free result, others must propagate after one attempt with tables unchanged, no connection may stay checked out',
+          'trusted: minimysql + aiomysql/pymysql shims; server-side effect of each error modelled per the MySQL manual; a COMMIT whose response is lost after taking effect is informational')
+    check('C19', 'exploration', 'boundary-directed input generation (exact serialized sizes, limits at window sums +-1) over the real _create_bunches with a concatenation/limit oracle',
+          'seeded spec lists with exact byte sizes and limits placed on every packing boundary, plus specs made by the client API, are bunched by the real method and checked for byte-identical ordered concatenation, groups-before-jobs, non-emptiness and the count and (exclusive) byte limits',
+          'trusted: json-backed orjson shim; oracle in vf/monitors/c19.py; byte limit read as exclusive per the code\'s own assertion')
+    check('C20', 'exploration', 'runtime monitoring of the real gather helpers on a virtual-time asyncio loop under seeded schedules, failures, nesting and cancellations',
+          'enter/exit of every task body, every helper call/return and the task set are recorded under ~4.5k/280k distinct completion schedules (permits 1-5, 0-12 bodies, nesting <= 2) and checked against the bound, result order, error contract, cancellation and no-task-left rules',
+          'trusted: vf/sim/vloop.py, CPython asyncio, the body/driver instrumentation in c20.py; the caller holds one permit as the repository\'s callers do')
+    check('C21', 'exploration', 'real retry helpers on a virtual-time loop with enumerated and random exception sequences against an independent classification table',
+          'every exception sequence up to length 3/4 over 23 representative values and up to length 7 over limited/transient/rate-limit symbols, plus seeded longer ones; number of calls, propagated exception and every delay (both jitter extremes) are checked',
+          'trusted: the 59-row classification table in c21.py written from the statement and code comments; exception classes that only exist as inert stubs are excluded and listed')
+    check('C25', 'exploration', 'grammar-directed + exhaustive small-decimal generation over the real parsers and the real job validator, exact-rational oracle, client/server acceptance differential',
+          'every decimal below 20/100 with up to three places times every unit plus seeded strings of every spelling class are parsed by the real functions and validated by the real whole-job validator; values are compared with exact rational arithmetic and acceptance must agree',
+          'trusted: fractions.Fraction; recogniser in vf/monitors/c25.py; numerals > 4000 digits not explored')
+    check('C29', 'exploration', 'grammar-based hostile URL generation over the real validator with a WHATWG-URL browser-navigation reference model (three-valued)',
+          'seeded URLs combining schemes, slash/backslash forms, userinfo tricks, host look-alikes, ports and whitespace/control injection around the configured hosts are passed to the real validate_next_page_url; every accepted string must, per the model, navigate to one of the four configured hosts',
+          'trusted: the browser_destination model in vf/monitors/c29.py (IDNA / IP literals / file / ftp / ws answered unknown and not judged)')
+    check('C30', 'exploration', 'real PR / WatchedBranch state machine on a virtual-time loop against GitHub and batch protocol fakes; oracle at every accepted merge',
+          'seeded 4-8 h histories of pushes, reviews, labels, statuses, batch results, target moves, API faults and lost webhooks; every merge GitHub accepted is judged on what CI had last fetched (approved, no do-not-merge label, all checks green on the head, batch against the current target, one merge per target fetch)',
+          'trusted: vf/sim/fake_github.py (REST + GraphQL + merge preconditions, no branch protection), fake batch client, vf/sim/vloop.py')
+    check('C38', 'fault_enumeration', 'crash-point enumeration over a provenance-tracking engine fake + partitioning sweep on the real function',
+          'the real VariantDatasetCombiner is run to completion, stopped and resumed at every step boundary, at every operation inside save() and at sampled operations of run(); the final dataset must be built from exactly the given inputs once each; the real even-genome partitioning is swept over real contig tables and interval sizes',
+          'trusted: vf/sim/fake_hl.py (provenance-tracking stand-in for the Hail engine and FS)')
